@@ -134,6 +134,25 @@ def plan(tier: str, seed: int) -> list[dict[str, Any]]:
                 [tuple(range(nd - 1)), (0,) * nd, tuple(range(1, nd + 1))]:
             cases.append({"k": "transpose", "shape": list(shp), "axes": list(perm)})
         cases.append({"k": "transpose", "shape": list(shp), "axes": None})
+        # the whole space of small axis tuples -- every length up to ndim+1, repeated,
+        # negative, unsorted and out-of-range entries -- not a hand-picked list
+        def tuples(vals: range, maxlen: int) -> list[tuple[int, ...]]:
+            return [t for ln in range(0, maxlen + 1) for t in itertools.product(vals, repeat=ln)]
+        cap = 4000 if thorough else 250
+        for fam, space in (("transpose", tuples(range(-nd, nd + 1), nd + 1)),
+                           ("expand_dims", tuples(range(-nd - 2, nd + 2), 3)),
+                           ("squeeze", tuples(range(-nd - 1, nd + 1), min(nd, 2) + 1))):
+            if len(space) > cap:
+                space = rng.sample(space, cap)
+            for t in space:
+                if fam == "transpose":
+                    cases.append({"k": "transpose", "shape": list(shp), "axes": list(t)})
+                else:
+                    cases.append({"k": fam, "shape": list(shp), "axis": list(t)})
+        red_space = tuples(range(-nd - 1, nd + 1), min(nd, 3))
+        for t in (red_space if len(red_space) <= cap // 4 else rng.sample(red_space, cap // 4)):
+            cases.append({"k": "red", "op": rng.choice(REDN), "a": ["arr", rng.choice(dts), list(shp)],
+                          "axis": list(t)})
         for k in range(1, 3):
             for axs in itertools.combinations(range(-nd - k - 1, nd + k + 1), k):
                 if rng.random() < 0.3:
